@@ -122,20 +122,27 @@ def container_task(prop, cfg, tier, seed):
         E.assume(dev <= 1)
         E.assume(n_r[1] == 0)
         # geometry values are enumerated (they act as divisors): wherever the items are stored
-        for it in items:
-            v32 = w(meta_off + it["off"], 4)
-            E.assume(core.sym_or(core.sym_not(guid_is(it["addr"], G["LOGICAL_SECTOR_SIZE_GUID"])), v32 == cfg.get("sector_size", 512)))
-            E.assume(core.sym_or(core.sym_not(guid_is(it["addr"], G["FILE_PARAMETERS_GUID"])), v32 == cfg.get("block_size", 1 << 20)))
-            v64 = w(meta_off + it["off"], 8)
-            E.assume(core.sym_or(core.sym_not(guid_is(it["addr"], G["VIRTUAL_DISK_SIZE_GUID"])), v64 <= 1 << 46))
+        # (item k can only carry canon[k] or the physical-sector-size GUID, so each value is looked at through the view the
+        # real code uses for that position: no second view of another width at the same symbolic address)
+        def at(g):
+            return [it for k, it in enumerate(items) if canon[k % len(canon)] is g]
+
+        for it in at(G["LOGICAL_SECTOR_SIZE_GUID"]):
+            E.assume(core.sym_or(core.sym_not(guid_is(it["addr"], G["LOGICAL_SECTOR_SIZE_GUID"])),
+                                 w(meta_off + it["off"], 4) == cfg.get("sector_size", 512)))
+        for it in at(G["FILE_PARAMETERS_GUID"]):
+            E.assume(core.sym_or(core.sym_not(guid_is(it["addr"], G["FILE_PARAMETERS_GUID"])),
+                                 w(meta_off + it["off"], 4) == cfg.get("block_size", 1 << 20)))
+        for it in at(G["VIRTUAL_DISK_SIZE_GUID"]):
+            E.assume(core.sym_or(core.sym_not(guid_is(it["addr"], G["VIRTUAL_DISK_SIZE_GUID"])), w(meta_off + it["off"], 8) <= 1 << 46))
         if cfg.get("parent"):
-            for it in items:
+            for it in at(G["PARENT_LOCATOR_GUID"]):
                 # bound: at most one key/value pair in the parent locator
                 E.assume(core.sym_or(core.sym_not(guid_is(it["addr"], G["PARENT_LOCATOR_GUID"])),
                                      w(meta_off + it["off"] + 18, 2) <= 1))
         if not cfg.get("parent"):
             # has_parent bit clear wherever file parameters are stored
-            for it in items:
+            for it in at(G["FILE_PARAMETERS_GUID"]):
                 E.assume(core.sym_or(core.sym_not(guid_is(it["addr"], G["FILE_PARAMETERS_GUID"])),
                                      (w(meta_off + it["off"] + 4, 4) >> 1) % 2 == 0))
         vars_ = dict(seq1=seq1, seq2=seq2, regions1=n_r[0], regions2=n_r[1], items=n_i)
@@ -183,8 +190,13 @@ def container_task(prop, cfg, tier, seed):
 
         def item_value_addr(g):
             """address of the item data: offset field of the last entry with GUID g"""
+            cand = at(g)
+            if len(cand) == 1:
+                return meta_off + cand[0]["off"]  # the only position that can carry g within the bounds
             addr = None
             for k, it in enumerate(items):
+                if it not in cand:
+                    continue
                 hit = core.sym_and(k < n_i, guid_is(it["addr"], g))
                 addr = core.ite(hit, meta_off + it["off"], addr if addr is not None else 0)
             return addr
